@@ -130,7 +130,9 @@ def describe(body, e, args_param, depth=0):
                 p = src[1]["path"]
                 if p.endswith("::next") or p.endswith("::next_back"):
                     v = view_of(src[2][0], args_param)
-                    return Descriptor("elem", v, iteration=("loop", body.key, src[3]), src=body.xtrace(body.blocks[src[3]]["term"]["args"][0]) if isinstance(src[3], int) and src[3] >= 0 else src[2][0])
+                    bi_ = src[3]
+                    at_site = isinstance(bi_, int) and 0 <= bi_ < len(body.blocks) and body.blocks[bi_]["term"]["k"] == "Call" and len(body.blocks[bi_]["term"]["args"]) >= 1
+                    return Descriptor("elem", v, iteration=("loop", body.key, bi_), src=body.xtrace(body.blocks[bi_]["term"]["args"][0]) if at_site else src[2][0])
                 if re.search(r"::(first|last|get|split_first|split_last)$", p):
                     v = view_of(src[2][0], args_param)
                     if p.endswith("::first"):
